@@ -26,6 +26,14 @@ Proof.
   intros s0 m0 t0 ls st H Hrun. destruct (sim_run ls _ _ _ (rel_init s0 m0 t0 H) Hrun) as (sp & Hs & _). eauto.
 Qed.
 
+(* The same from ANY pair of states related by the simulation relation Rel (the control skeleton,
+   the data invariant: where committed and in-flight entries are and how memtable generations and
+   the tree are ordered, and the per-thread correspondence), e.g. a store opened on existing data:
+   the relation is inductive, so the refinement does not depend on starting empty. *)
+Theorem C06_refinement_is_inductive : forall st sp ls st', Rel st sp ->
+  run st ls = Some st' -> exists sp', srun sp ls = Some sp' /\ Rel st' sp'.
+Proof. intros st sp ls st' HR Hrun. exact (sim_run ls st sp st' HR Hrun). Qed.
+
 (* Per-key linearizability of point reads.  A `load` that returns r was invoked (LInvR), took its
    snapshot (LSnap) and returned, in this order, with no other invocation by the thread in
    between; r is the value of the LAST committed write to the key in the database V as of the
